@@ -269,6 +269,15 @@ func (c c07Check) determinism(a c07Args, w *Worker, res *UnitResult) {
 		return
 	}
 	defer B.close()
+	// S: a standalone (non-cluster) instance - the reference for the EFFECT of a command: what the leader path applies
+	// must be what the command does when executed directly
+	sIn, err := newInstance(InstCfg{})
+	if err != nil {
+		res.EngineError = "cannot start the standalone reference: " + err.Error()
+		return
+	}
+	S := &c07Node{in: sIn, id: "standalone"}
+	defer S.close()
 	if !A.waitLeader(15*time.Second) || !B.waitLeader(15*time.Second) {
 		res.Capped = "a single-voter node did not become leader within 15 s"
 		return
@@ -287,7 +296,7 @@ func (c c07Check) determinism(a c07Args, w *Worker, res *UnitResult) {
 	res.Samples = append(res.Samples, map[string]any{"facet": "determinism", "alphabet": len(alpha), "depth": a.Depth, "domains": a.Dom})
 
 	reset := func() bool {
-		for _, n := range []*c07Node{A, B} {
+		for _, n := range []*c07Node{A, B, S} {
 			if o := n.call("FLUSHALL"); o.V.IsErr() || o.Hang {
 				return false
 			}
@@ -301,6 +310,7 @@ func (c c07Check) determinism(a c07Args, w *Worker, res *UnitResult) {
 		return true
 	}
 	hashes := map[string]struct{}{}
+	lastLog, lastLogName := "(none)", "(none)"
 	runLog := func(log []Action) (ok bool) {
 		id := pathString(log)
 		if !w.Case(id) {
@@ -320,17 +330,43 @@ func (c c07Check) determinism(a c07Args, w *Worker, res *UnitResult) {
 			res.Capped = "seeding B failed"
 			return false
 		}
+		if _, ok := c07Apply(S, seed, 1); !ok {
+			res.Capped = "seeding the standalone reference failed"
+			return false
+		}
 		preA := A.alpha()
+		if alphaKey(preA) != alphaKey(S.alpha()) {
+			res.Findings = append(res.Findings, Finding{Prop: "C07", Kind: "leader-path-effect", Sig: "leader-path-effect|seed log after " + lastLogName, Cost: 1,
+				Detail: fmt.Sprintf("the seed log, acknowledged by the leader after the log [%s], left another dataset than the same commands executed directly: %s", lastLog, firstDiff(preA, S.alpha())),
+				Replay: map[string]any{"facet": "determinism", "log": log}})
+			return true
+		}
 		if alphaKey(preA) != alphaKey(B.alpha()) {
 			res.EngineError = "the two nodes differ after the seed log: " + firstDiff(preA, B.alpha())
 			return false
 		}
+		defer func() { lastLog, lastLogName = id, strings.ToUpper(log[len(log)-1].A[0]) }()
 		res.Stats["logs"]++
-		res.Stats["commands_applied"] += int64(2 * len(full))
+		res.Stats["commands_applied"] += int64(3 * len(full))
 		// one command at a time: A applies it, the clock moves, B applies it with another random stream; the first
 		// command after which the replicas differ is the culprit (later commands would run on diverged states)
 		for i, act := range log {
+			outsS, okS := c07Apply(S, []Action{act}, int64(11+i))
 			outsA, okA := c07Apply(A, []Action{act}, int64(11+i))
+			if okS && okA && !unorderedOrRandomReply(act.A[0]) {
+				// the acknowledged command must have the effect (and reply) it has when executed directly
+				if pa, ps := A.alpha(), S.alpha(); alphaKey(pa) != alphaKey(ps) {
+					res.Findings = append(res.Findings, Finding{Prop: "C07", Kind: "leader-path-effect", Sig: "leader-path-effect|" + strings.ToUpper(act.A[0]), Cost: len(log),
+						Detail: fmt.Sprintf("log [%s]: %s acknowledged by the leader left another dataset than the same command executed directly: %s", id, act, firstDiff(pa, ps)),
+						Replay: map[string]any{"facet": "determinism", "log": log}})
+					break
+				}
+				if outsS[0].V.Canon(true) != outsA[0].V.Canon(true) {
+					res.Findings = append(res.Findings, Finding{Prop: "C07", Kind: "leader-path-reply", Sig: "leader-path-reply|" + strings.ToUpper(act.A[0]), Cost: len(log),
+						Detail: fmt.Sprintf("log [%s]: %s answered %s through the leader path and %s when executed directly", id, act, outsA[0].Brief(), outsS[0].Brief()),
+						Replay: map[string]any{"facet": "determinism", "log": log}})
+				}
+			}
 			verifrt.Advance(c07Skew*time.Millisecond, nil)
 			outsB, okB := c07Apply(B, []Action{act}, int64(97+i))
 			name := strings.ToUpper(act.A[0])
@@ -565,6 +601,36 @@ func (c c07Check) cluster(a c07Args, w *Worker, res *UnitResult) {
 						Detail: fmt.Sprintf("%s sent to the %s: with equal applied indices the leader and the %s differ: %s", act, names[entry], names[i], diff)})
 					break
 				}
+			}
+		}
+	}
+	// a node that joins late replays the leader's log from the start and must converge to the same dataset
+	verifrt.SeedRand(5)
+	L.call("FLUSHALL")
+	for _, sd := range seed {
+		L.call(sd.A...)
+	}
+	for i := 0; i < 20; i++ {
+		L.call("SET", fmt.Sprintf("late%02d", i), fmt.Sprintf("value-%d", i))
+	}
+	if converge(10 * time.Second) {
+		J, err := c07NewNode(false, join, false)
+		if err == nil {
+			defer J.close()
+			end := time.Now().Add(20 * time.Second)
+			for time.Now().Before(end) && (L.in.db.VerifRaftPeers() < 4 || J.in.db.VerifRaftApplied() < L.in.db.VerifRaftLast()) {
+				time.Sleep(50 * time.Millisecond)
+			}
+			time.Sleep(100 * time.Millisecond)
+			if L.in.db.VerifRaftPeers() >= 4 && J.in.db.VerifRaftApplied() >= L.in.db.VerifRaftLast() {
+				res.Stats["late_join_checks"]++
+				if la, ja := L.alpha(), J.alpha(); alphaKey(la) != alphaKey(ja) {
+					kind, diff := c07DiffKind(la, ja)
+					res.Findings = append(res.Findings, Finding{Prop: "C07", Kind: "late-joiner-" + kind, Sig: "late-joiner-" + kind,
+						Detail: "a node that joined after the writes replayed the leader's log up to its last index but holds another dataset: " + diff})
+				}
+			} else {
+				res.Notes = append(res.Notes, "late join: the new node did not catch up within 20 s (not judged)")
 			}
 		}
 	}
